@@ -5,10 +5,13 @@ package c10
 // lock-carrying collection type into a straight-line list of steps
 //
 //	acq / rel            the method takes / releases the instance lock
-//	                     (Lock + deferred Unlock; Cond.Wait = rel, acq)
+//	                     (Lock + deferred Unlock; Cond.Wait = rel, acq, both
+//	                     marked a = "wait")
 //	call  a b            it calls method b of the same receiver (a = "") or of
 //	                     the sub-object held in field a (a lock-carrying type)
-//	acc   r w            it reads the receiver fields r and writes the fields w
+//	acc   r w            it reads the receiver fields r and writes the fields w;
+//	                     for a field holding a reference (slice, pointer, map)
+//	                     "f" is the field itself and "f*" what it refers to
 //
 // in source order (arguments before the call, right-hand sides before the
 // assignment, deferred calls at the end in LIFO order; branches and loops are
@@ -35,7 +38,7 @@ import (
 // written: their order and multiplicity do not matter to a lock discipline.
 type Step struct {
 	K string   `json:"k"` // acq | rel | call | acc
-	A string   `json:"a"` // call: sub-object field ("" = same receiver)
+	A string   `json:"a"` // call: sub-object field ("" = same receiver); acq / rel: "wait" inside Cond.Wait
 	B string   `json:"b"` // call: method name
 	R []string `json:"r"` // acc: fields read (sorted)
 	W []string `json:"w"` // acc: fields written (sorted)
@@ -59,6 +62,7 @@ type TypeInfo struct {
 	Sub     [][]string         `json:"sub"` // [field, type] for fields holding another table type
 	Methods map[string]*Method `json:"methods"`
 	Pubs    []string           `json:"pubs"` // the public methods, sorted (gives pairs an order)
+	ref     map[string]bool    // fields that hold a reference (pointer, slice, map, func, chan, interface)
 }
 
 // Table is the whole extraction.
@@ -136,6 +140,20 @@ func lockKind(e ast.Expr) string {
 	return ""
 }
 
+// refKind: a field of this declared type holds a reference: what it refers to
+// (the bucket array behind a slice header, the node behind a pointer) is other
+// memory than the field itself.  Named types count as values (conservative:
+// an access below such a field is an access of the field).
+func refKind(e ast.Expr) bool {
+	switch t := e.(type) {
+	case *ast.StarExpr, *ast.MapType, *ast.ChanType, *ast.FuncType, *ast.InterfaceType:
+		return true
+	case *ast.ArrayType:
+		return t.Len == nil
+	}
+	return false
+}
+
 // Extract parses the three packages under repo and builds the table.
 func Extract(repo string) (*Table, error) {
 	tab := &Table{Types: map[string]*TypeInfo{}}
@@ -173,7 +191,7 @@ func Extract(repo string) (*Table, error) {
 						if !ok {
 							continue
 						}
-						ti := &TypeInfo{Pkg: pkg, File: "util/" + pkg + "/" + name, Methods: map[string]*Method{}, Sub: [][]string{}, Fields: []string{}}
+						ti := &TypeInfo{Pkg: pkg, File: "util/" + pkg + "/" + name, Methods: map[string]*Method{}, Sub: [][]string{}, Fields: []string{}, ref: map[string]bool{}}
 						ft := map[string]string{}
 						for _, fl := range st.Fields.List {
 							for _, fn := range fl.Names {
@@ -182,6 +200,7 @@ func Extract(repo string) (*Table, error) {
 									continue
 								}
 								ti.Fields = append(ti.Fields, fn.Name)
+								ti.ref[fn.Name] = refKind(fl.Type)
 								switch fl.Type.(type) {
 								case *ast.StarExpr, *ast.SelectorExpr, *ast.Ident:
 									ft[fn.Name] = typeName(fl.Type)
@@ -323,13 +342,15 @@ func (w *walker) isRecv(e ast.Expr) bool {
 	return ok && w.recv != "" && id.Name == w.recv
 }
 
-// rootField: e is recv.f, recv.f.x.y, recv.f[i], recv.f[i].x ... -> f
-func (w *walker) rootField(e ast.Expr) (string, bool) {
+// rootField: e is recv.f, recv.f.x.y, recv.f[i], recv.f[i].x ... -> f; deep says
+// that e is something below the field (an element, a field of the node), not
+// the field itself
+func (w *walker) rootField(e ast.Expr) (f string, deep bool, ok bool) {
 	for {
 		switch t := e.(type) {
 		case *ast.SelectorExpr:
 			if w.isRecv(t.X) {
-				return t.Sel.Name, true
+				return t.Sel.Name, deep, true
 			}
 			e = t.X
 		case *ast.IndexExpr:
@@ -338,10 +359,52 @@ func (w *walker) rootField(e ast.Expr) (string, bool) {
 			e = t.X
 		case *ast.ParenExpr:
 			e = t.X
+			continue
 		case *ast.SliceExpr:
 			e = t.X
 		default:
-			return "", false
+			return "", false, false
+		}
+		deep = true
+	}
+}
+
+// touch records an access of field f (deep: of what f refers to).  For a
+// reference field the two are different memory: reading len(recv.table) and
+// writing recv.table[i] do not conflict, replacing recv.table conflicts with
+// both.  "f*" stands for everything reachable from f.
+func (w *walker) touch(f string, deep, write bool) {
+	if f == w.ti.Lock {
+		return
+	}
+	if deep && w.ti.ref[f] {
+		w.acc(f, false)
+		w.acc(f+"*", write)
+		return
+	}
+	w.acc(f, write)
+}
+
+// inner walks the index / slice-bound expressions inside a chain rooted at the receiver
+func (w *walker) inner(e ast.Expr) {
+	for {
+		switch t := e.(type) {
+		case *ast.SelectorExpr:
+			e = t.X
+		case *ast.IndexExpr:
+			w.expr(t.Index)
+			e = t.X
+		case *ast.StarExpr:
+			e = t.X
+		case *ast.ParenExpr:
+			e = t.X
+		case *ast.SliceExpr:
+			w.expr(t.Low)
+			w.expr(t.High)
+			w.expr(t.Max)
+			e = t.X
+		default:
+			return
 		}
 	}
 }
@@ -411,7 +474,12 @@ func (w *walker) stmt(s ast.Stmt) {
 		w.block(t.Body)
 		w.stmt(t.Post)
 	case *ast.RangeStmt:
-		w.expr(t.X)
+		if f, _, ok := w.rootField(t.X); ok && !w.meths[f] { // ranging over a field reads what it holds
+			w.inner(t.X)
+			w.touch(f, true, false)
+		} else {
+			w.expr(t.X)
+		}
 		if t.Tok == token.ASSIGN {
 			if t.Key != nil {
 				w.lhs(t.Key, false)
@@ -463,19 +531,12 @@ func (w *walker) stmt(s ast.Stmt) {
 
 // lhs: an assignment target; also reads the target when rw (+=, ++)
 func (w *walker) lhs(e ast.Expr, rw bool) {
-	// index expressions and the like inside the target are reads
-	switch t := e.(type) {
-	case *ast.IndexExpr:
-		w.expr(t.Index)
-	}
-	if f, ok := w.rootField(e); ok {
-		if f == w.ti.Lock {
-			return
-		}
+	if f, deep, ok := w.rootField(e); ok {
+		w.inner(e) // index expressions and the like inside the target are reads
 		if rw {
-			w.acc(f, false)
+			w.touch(f, deep, false)
 		}
-		w.acc(f, true)
+		w.touch(f, deep, true)
 		return
 	}
 	// a target that is not rooted at the receiver: only its sub-expressions matter
@@ -483,6 +544,7 @@ func (w *walker) lhs(e ast.Expr, rw bool) {
 	case *ast.SelectorExpr:
 		w.expr(t.X)
 	case *ast.IndexExpr:
+		w.expr(t.Index)
 		w.expr(t.X)
 	case *ast.StarExpr:
 		w.expr(t.X)
@@ -501,9 +563,9 @@ func (w *walker) call(c *ast.CallExpr, argsToo bool) {
 			w.emit(Step{K: "acq"})
 		case "Unlock", "RUnlock":
 			w.emit(Step{K: "rel"})
-		case "Wait":
-			w.emit(Step{K: "rel"})
-			w.emit(Step{K: "acq"})
+		case "Wait": // gives the lock up while waiting and takes it again: ONE operation by design
+			w.emit(Step{K: "rel", A: "wait"})
+			w.emit(Step{K: "acq", A: "wait"})
 		}
 		return
 	}
@@ -541,16 +603,28 @@ func (w *walker) expr(e ast.Expr) {
 			}
 			return
 		}
+		if w.chain(e) {
+			return
+		}
 		w.expr(t.X)
 	case *ast.IndexExpr:
+		if w.chain(e) {
+			return
+		}
 		w.expr(t.X)
 		w.expr(t.Index)
 	case *ast.SliceExpr:
+		if w.chain(e) {
+			return
+		}
 		w.expr(t.X)
 		w.expr(t.Low)
 		w.expr(t.High)
 		w.expr(t.Max)
 	case *ast.StarExpr:
+		if w.chain(e) {
+			return
+		}
 		w.expr(t.X)
 	case *ast.UnaryExpr:
 		w.expr(t.X)
@@ -570,6 +644,17 @@ func (w *walker) expr(e ast.Expr) {
 	case *ast.FuncLit:
 		w.block(t.Body)
 	}
+}
+
+// chain: e is an expression below a receiver field (recv.f.x, recv.f[i] ...): a read of it
+func (w *walker) chain(e ast.Expr) bool {
+	f, deep, ok := w.rootField(e)
+	if !ok || w.meths[f] {
+		return false
+	}
+	w.inner(e)
+	w.touch(f, deep, false)
+	return true
 }
 
 // WriteTable writes the table as one JSON object (the TLC constant) to path.
